@@ -594,3 +594,167 @@ Proof.
     apply Forall_cons; [fmt_q 1%Z (-10)%Z|].
     apply Forall_nil.
 Qed.
+
+(* ====================================================================================== *)
+(* 5. the sum of squared deviations s of jls_statistics_add                                *)
+(* ====================================================================================== *)
+Definition rsumsq (xs : list R) : R := rsum (map (fun x => x * x) xs).
+(* exact sum of squared deviations, in the form sum x^2 - n mean^2 (rss_eq_rssq below) *)
+Definition rss (xs : list R) : R := rsumsq xs - INR (length xs) * (rmean xs * rmean xs).
+
+Lemma rmean_nil : rmean [] = 0.
+Proof. unfold rmean. cbn. unfold Rdiv. apply Rmult_0_l. Qed.
+
+Lemma rmean_snoc : forall xs x, rmean (xs ++ [x]) = rmean xs + (x - rmean xs) / INR (S (length xs)).
+Proof.
+  intros xs x. unfold rmean. rewrite rsum_app, app_length. cbn [length rsum fold_right].
+  replace (length xs + 1)%nat with (S (length xs)) by lia. rewrite Rplus_0_r.
+  assert (HK : 0 < INR (S (length xs))) by (apply lt_0_INR; lia).
+  destruct xs as [|y ys].
+  - cbn. unfold Rdiv. rewrite Rmult_0_l. field.
+  - assert (0 < INR (length (y :: ys))) by (apply lt_0_INR; cbn; lia).
+    rewrite (S_INR (length (y :: ys))) in *. field. split; lra.
+Qed.
+
+Lemma rmean_bound : forall (M : R) (xs : list R), 0 <= M -> Forall (fun x => Rabs x <= M) xs -> Rabs (rmean xs) <= M.
+Proof.
+  intros M xs HM H. destruct xs as [|y ys].
+  - rewrite rmean_nil, Rabs_R0. exact HM.
+  - assert (HK : 0 < INR (length (y :: ys))) by (apply lt_0_INR; cbn; lia).
+    unfold rmean, Rdiv. rewrite Rabs_mult, (Rabs_pos_eq (/ _)) by (apply Rlt_le, Rinv_0_lt_compat; exact HK).
+    apply Rmult_le_reg_r with (INR (length (y :: ys))); [exact HK|]. rewrite Rmult_assoc, Rinv_l by lra.
+    rewrite Rmult_1_r, Rmult_comm. apply rsum_bound. exact H.
+Qed.
+
+Lemma rsumsq_snoc : forall xs x, rsumsq (xs ++ [x]) = rsumsq xs + x * x.
+Proof. intros xs x. unfold rsumsq. rewrite map_app, rsum_app. cbn. lra. Qed.
+
+(* Welford's identity: s_k = s_(k-1) + (x - m_(k-1)) (x - m_k) *)
+Lemma rss_snoc : forall xs x, rss (xs ++ [x]) = rss xs + (x - rmean xs) * (x - rmean (xs ++ [x])).
+Proof.
+  intros xs x. unfold rss. rewrite rsumsq_snoc, rmean_snoc, app_length. cbn [length].
+  replace (length xs + 1)%nat with (S (length xs)) by lia.
+  assert (HK : 0 < INR (S (length xs))) by (apply lt_0_INR; lia).
+  rewrite S_INR in *. field. lra.
+Qed.
+
+Lemma rsum_sq_shift : forall (c : R) (xs : list R),
+  rsum (map (fun x => (x - c) * (x - c)) xs) = rsumsq xs - 2 * c * rsum xs + INR (length xs) * (c * c).
+Proof.
+  intros c xs. unfold rsumsq. induction xs as [|x xs IH]; [cbn; lra|].
+  cbn [map rsum fold_right length] in *. rewrite S_INR.
+  change (fold_right Rplus 0 (map (fun x0 : R => (x0 - c) * (x0 - c)) xs)) with (rsum (map (fun x0 : R => (x0 - c) * (x0 - c)) xs)).
+  rewrite IH. unfold rsum. lra.
+Qed.
+
+Lemma rss_eq_rssq : forall xs, rss xs = rssq xs.
+Proof.
+  intros xs. unfold rssq. rewrite rsum_sq_shift. unfold rss.
+  destruct xs as [|y ys]; [rewrite rmean_nil; cbn; lra|].
+  assert (HK : 0 < INR (length (y :: ys))) by (apply lt_0_INR; cbn; lia).
+  assert (E : rsum (y :: ys) = INR (length (y :: ys)) * rmean (y :: ys)) by (unfold rmean; field; lra).
+  rewrite E. ring.
+Qed.
+
+Lemma rss_bound : forall (M : R) (xs : list R), 0 <= M -> Forall (fun x => Rabs x <= M) xs ->
+  Rabs (rss xs) <= 4 * INR (length xs) * (M * M).
+Proof.
+  intros M xs HM. induction xs as [|x xs IH] using rev_ind; intros H.
+  - unfold rss, rsumsq. cbn. rewrite rmean_nil. rewrite Rabs_pos_eq; lra.
+  - pose proof H as H'. apply Forall_app in H. destruct H as [Hxs Hx]. inversion Hx as [|? ? Bx _]. subst.
+    rewrite rss_snoc, app_length. cbn [length]. replace (length xs + 1)%nat with (S (length xs)) by lia. rewrite S_INR.
+    eapply Rle_trans; [apply Rabs_triang|]. rewrite Rabs_mult.
+    pose proof (rmean_bound M xs HM Hxs) as B1. pose proof (rmean_bound M (xs ++ [x]) HM H') as B2.
+    assert (A1 : Rabs (x - rmean xs) <= 2 * M) by (eapply Rle_trans; [apply Rabs_triang|]; rewrite Rabs_Ropp; lra).
+    assert (A2 : Rabs (x - rmean (xs ++ [x])) <= 2 * M) by (eapply Rle_trans; [apply Rabs_triang|]; rewrite Rabs_Ropp; lra).
+    assert (Rabs (x - rmean xs) * Rabs (x - rmean (xs ++ [x])) <= 2 * M * (2 * M)) by (apply Rmult_le_compat; try apply Rabs_pos; assumption).
+    specialize (IH Hxs). lra.
+Qed.
+
+(* the mean error bound for every prefix, the empty one included *)
+Lemma fp_mean_error0 : forall (M : R) (xs : list R), 0 <= M ->
+  Forall (fun x => fmt x /\ Rabs x <= M) xs -> (Z.of_nat (length xs) <= 2 ^ 52)%Z ->
+  Rabs (f_mean (fp_stats_add_list xs) - rmean xs) <= INR (length xs) * cstep M.
+Proof.
+  intros M xs HM Hall Hlen. destruct xs as [|y ys].
+  - cbn. rewrite rmean_nil, Rminus_0_r, Rabs_R0. lra.
+  - apply fp_mean_error; try assumption. discriminate.
+Qed.
+
+Lemma fp_add_list_fmt_s : forall xs, fmt (f_s (fp_stats_add_list xs)).
+Proof.
+  induction xs as [|x xs IH] using rev_ind; [apply fmt_0|].
+  rewrite fp_add_list_snoc. cbn [fp_stats_add f_s]. apply fmt_RN.
+Qed.
+
+Lemma Rabs_1p : forall d, Rabs d <= u64 -> Rabs (1 + d) <= 1 + u64.
+Proof. intros d H. eapply Rle_trans; [apply Rabs_triang|]. rewrite Rabs_R1. lra. Qed.
+
+(* one update of s, with mean errors at most eps before and after *)
+Definition sdelta (M eps : R) : R := eps * (1 + u64) + 2 * u64 * M.
+Definition spi (M eps : R) : R := (1 + u64) * (sdelta M eps * (4 * M + sdelta M eps)) + 4 * u64 * (M * M) + eta64.
+
+Lemma fp_s_step : forall (M eps S' : R) (mh mh' m m' sh s x : R),
+  0 <= M -> 0 <= eps -> fmt mh -> fmt mh' -> fmt x -> fmt sh ->
+  Rabs x <= M -> Rabs m <= M -> Rabs m' <= M ->
+  Rabs (mh - m) <= eps -> Rabs (mh' - m') <= eps ->
+  Rabs (s + (x - m) * (x - m')) <= S' ->
+  Rabs (RN (sh + RN (RN (x - mh) * RN (x - mh'))) - (s + (x - m) * (x - m'))) <=
+    (1 + u64) * (Rabs (sh - s) + spi M eps) + u64 * S'.
+Proof.
+  intros M eps S' mh mh' m m' sh s x HM Heps Fmh Fmh' Fx Fsh Bx Bm Bm' He He' HS'.
+  pose proof u64_pos as Hu. pose proof u64_lt as Hu1. pose proof eta64_pos as Heta.
+  destruct (RN_minus_rel x mh Fx Fmh) as [da [Da Ea]].
+  destruct (RN_minus_rel x mh' Fx Fmh') as [db [Db Eb]].
+  destruct (RN_gen (RN (x - mh) * RN (x - mh'))) as [dp [hp [Dp [Hp Ep]]]].
+  destruct (RN_plus_rel sh (RN (RN (x - mh) * RN (x - mh'))) Fsh (fmt_RN _)) as [ds [Ds Es]].
+  rewrite Es.
+  set (ph := RN (RN (x - mh) * RN (x - mh'))) in *.
+  set (a0 := x - m). set (b0 := x - m'). set (p0 := a0 * b0) in *.
+  set (ah := RN (x - mh)) in *. set (bh := RN (x - mh')) in *.
+  set (D := sdelta M eps).
+  assert (HD0 : 0 <= D) by (unfold D, sdelta; nra).
+  assert (Ba0 : Rabs a0 <= 2 * M) by (unfold a0; eapply Rle_trans; [apply Rabs_triang|]; rewrite Rabs_Ropp; lra).
+  assert (Bb0 : Rabs b0 <= 2 * M) by (unfold b0; eapply Rle_trans; [apply Rabs_triang|]; rewrite Rabs_Ropp; lra).
+  assert (Ha : Rabs (ah - a0) <= D).
+  { rewrite Ea. replace ((x - mh) * (1 + da) - a0) with (- (mh - m) * (1 + da) + a0 * da) by (unfold a0; ring).
+    eapply Rle_trans; [apply Rabs_triang|]. rewrite !Rabs_mult, Rabs_Ropp.
+    pose proof (Rabs_1p da Da).
+    assert (Rabs (mh - m) * Rabs (1 + da) <= eps * (1 + u64)) by (apply Rmult_le_compat; try apply Rabs_pos; assumption).
+    assert (Rabs a0 * Rabs da <= 2 * M * u64) by (apply Rmult_le_compat; try apply Rabs_pos; assumption).
+    unfold D, sdelta. lra. }
+  assert (Hb : Rabs (bh - b0) <= D).
+  { rewrite Eb. replace ((x - mh') * (1 + db) - b0) with (- (mh' - m') * (1 + db) + b0 * db) by (unfold b0; ring).
+    eapply Rle_trans; [apply Rabs_triang|]. rewrite !Rabs_mult, Rabs_Ropp.
+    pose proof (Rabs_1p db Db).
+    assert (Rabs (mh' - m') * Rabs (1 + db) <= eps * (1 + u64)) by (apply Rmult_le_compat; try apply Rabs_pos; assumption).
+    assert (Rabs b0 * Rabs db <= 2 * M * u64) by (apply Rmult_le_compat; try apply Rabs_pos; assumption).
+    unfold D, sdelta. lra. }
+  assert (Bbh : Rabs bh <= 2 * M + D).
+  { replace bh with (b0 + (bh - b0)) by ring. eapply Rle_trans; [apply Rabs_triang|]. lra. }
+  assert (Hab : Rabs (ah * bh - p0) <= D * (4 * M + D)).
+  { replace (ah * bh - p0) with ((ah - a0) * bh + a0 * (bh - b0)) by (unfold p0; ring).
+    eapply Rle_trans; [apply Rabs_triang|]. rewrite !Rabs_mult.
+    assert (Rabs (ah - a0) * Rabs bh <= D * (2 * M + D)) by (apply Rmult_le_compat; try apply Rabs_pos; assumption).
+    assert (Rabs a0 * Rabs (bh - b0) <= 2 * M * D) by (apply Rmult_le_compat; try apply Rabs_pos; assumption).
+    lra. }
+  assert (Bp0 : Rabs p0 <= 4 * (M * M)).
+  { unfold p0. rewrite Rabs_mult.
+    assert (Rabs a0 * Rabs b0 <= 2 * M * (2 * M)) by (apply Rmult_le_compat; try apply Rabs_pos; assumption). lra. }
+  assert (Hph : Rabs (ph - p0) <= spi M eps).
+  { unfold ph. rewrite Ep. fold ah bh.
+    replace (ah * bh * (1 + dp) + hp - p0) with ((ah * bh - p0) * (1 + dp) + p0 * dp + hp) by ring.
+    eapply Rle_trans; [apply Rabs_triang|]. eapply Rle_trans; [apply Rplus_le_compat_r, Rabs_triang|].
+    rewrite !Rabs_mult. pose proof (Rabs_1p dp Dp).
+    assert (Rabs (ah * bh - p0) * Rabs (1 + dp) <= D * (4 * M + D) * (1 + u64)) by (apply Rmult_le_compat; try apply Rabs_pos; assumption).
+    assert (Rabs p0 * Rabs dp <= 4 * (M * M) * u64) by (apply Rmult_le_compat; try apply Rabs_pos; assumption).
+    unfold spi. fold D. lra. }
+  fold p0 in HS' |- *.
+  replace ((sh + ph) * (1 + ds) - (s + p0)) with (((sh - s) + (ph - p0)) * (1 + ds) + (s + p0) * ds) by ring.
+  eapply Rle_trans; [apply Rabs_triang|]. rewrite !Rabs_mult. pose proof (Rabs_1p ds Ds).
+  assert (Rabs (sh - s + (ph - p0)) <= Rabs (sh - s) + spi M eps) by (eapply Rle_trans; [apply Rabs_triang|]; lra).
+  assert (Rabs (sh - s + (ph - p0)) * Rabs (1 + ds) <= (Rabs (sh - s) + spi M eps) * (1 + u64)).
+  { apply Rmult_le_compat; try apply Rabs_pos; assumption. }
+  assert (Rabs (s + p0) * Rabs ds <= S' * u64) by (apply Rmult_le_compat; try apply Rabs_pos; assumption).
+  lra.
+Qed.
